@@ -26,3 +26,34 @@ package css_parser
 //@   prop C12
 //@   ensures byte: result <= 255
 //@   ensures exact: !fp.isNaN(f) && fp.geq(f, 0.0) && fp.leq(f, 1.0) ==> result == uint32(bv.as(int64, fp.to_sbv(64, fp.round(fp.mul(f, 255.0)))))
+
+// ----------------------------------------------------------------------------------------------
+// C12: box-shorthand collapsing may merge declarations only when a browser that accepts one of them
+// accepts all of them. unitSafetyTracker abstracts the set of not-universally-supported units seen in a
+// declaration: unitSafe = none, unitUnsafeSingle = exactly {t.unit}, unitUnsafeMixed = two different
+// units or a value that is not a plain length. includeUnitOf must implement set insertion on that
+// abstraction (spec source: the comment on unitSafetyTracker and the property's "a rule whose
+// support differs between browsers is never merged with one that does not").
+//@ import css_ast "github.com/evanw/esbuild/internal/css_ast"
+//@ import css_lexer "github.com/evanw/esbuild/internal/css_lexer"
+//@ spec func unsafeUnit(token css_ast.Token) bool = token.Kind == css_lexer.TDimension && !token.DimensionUnitIsSafeLength()
+//@ spec func harmlessValue(token css_ast.Token) bool =
+//@     token.Kind == css_lexer.TPercentage || (token.Kind == css_lexer.TNumber && token.Text == "0") ||
+//@     (token.Kind == css_lexer.TDimension && token.DimensionUnitIsSafeLength())
+
+//@ func (*unitSafetyTracker).includeUnitOf
+//@   arith int
+//@   prop C12
+//@   modifies unitSafetyTracker.unit, unitSafetyTracker.status
+//@   requires t != nil
+//@   ensures monotone: t.status >= old(t.status) || t.status == unitUnsafeMixed
+//@   ensures harmless: harmlessValue(token) ==> t.status == old(t.status) && t.unit == old(t.unit)
+//@   ensures first-unit: unsafeUnit(token) && old(t.status) == unitSafe ==> t.status == unitUnsafeSingle && t.unit == token.DimensionUnit()
+//@   ensures same-unit: unsafeUnit(token) && old(t.status) == unitUnsafeSingle && old(t.unit) == token.DimensionUnit() ==> t.status == unitUnsafeSingle && t.unit == old(t.unit)
+//@   ensures other-unit: unsafeUnit(token) && old(t.status) == unitUnsafeSingle && old(t.unit) != token.DimensionUnit() ==> t.status == unitUnsafeMixed
+//@   ensures mixed-sticks: old(t.status) == unitUnsafeMixed && !harmlessValue(token) ==> t.status == unitUnsafeMixed
+//@   ensures not-a-length: !harmlessValue(token) && !unsafeUnit(token) ==> t.status == unitUnsafeMixed
+
+// Two trackers are compatible only if they stand for the same set of units and neither is mixed.
+//@ lemma isSafeWith_sound C12: forall a unitSafetyTracker, b unitSafetyTracker :: a.isSafeWith(b) ==>
+//@     a.status == b.status && a.status != unitUnsafeMixed && (a.status == unitUnsafeSingle ==> a.unit == b.unit)
